@@ -412,6 +412,11 @@ func indexConsistency(s *PebbleScanner) []string {
 		if hv, ok := have[k]; !ok {
 			bad = append(bad, "missing index entry "+k)
 		} else if hv != v {
+			// an entry written before the packed format (the bare ID) is read back by every lookup and
+			// carries nothing that could be stale
+			if raw, err := hex.DecodeString(hv); err == nil && (strings.HasPrefix(k, "topo:") || strings.HasPrefix(k, "fuzzy:")) && strings.HasSuffix(k, ":"+string(raw)) {
+				continue
+			}
 			bad = append(bad, "index entry "+k+" has stale value")
 		}
 	}
